@@ -205,7 +205,7 @@ std_check("C05", [("peer_send", 100, 1500), ("xfer", 30, 400)] + KF,
 std_check("C06", [("peer_send", 120, 2000), ("xfer", 30, 400)] + KF,
           ["C06.SegStable", "C06.NeverRetxAcked", "C06.Cap", "C06.RetxAllowed", "C06.RtoNotEarly", "C06.Backoff",
            "C06.RtoRange", "C06.RtoFires", "C06.TimerArmed", "C06.FastRetx"], model_spec=DATA_MODEL,
-          parts=[("segs", ["C06.", "Segs."])])
+          parts=[("segs", ["C06.", "Segs."]), ("recov", ["C06.", "Recov."])])
 std_check("C07", [("peer_recv", 120, 2000), ("xfer_clean", 20, 200)],
           ["C07.NoSpontaneousAck", "C07.DelayedAck", "C07.ImmediateAck"])
 std_check("C08", [("close", 100, 1500), ("many", 40, 600)],
